@@ -38,7 +38,7 @@ ASSUMPTIONS = [
 REQUIRED = {"expand.count_and_order": {"quick": 1500, "thorough": 100000}, "expand.row_scenario": {"quick": 3000, "thorough": 200000},
             "expand.template_unchanged": {"quick": 1500, "thorough": 100000}, "expand.rows_independent": {"quick": 800, "thorough": 50000},
             "modify.rebuilt": {"quick": 800, "thorough": 50000}, "builder.count": {"quick": 1500, "thorough": 100000}}
-REQUIRED_SEEN = {"entry_point": ["parse_scenario", "parse_feature"], "background_steps_shape": ["mixed", "all_with_placeholder", "none_with_placeholder", "placeholder_step_with_doc_string"], "outline_place": ["in_rule", "in_feature"], "examples_shape": ["section_without_table_before_rows"], "tag_placeholder_column": ["name_with_punctuation"], "schema": 9, "schema_given_by": ["configuration_parameter", "outline_attribute"], "modification": ["add_row", "add_row_object", "add_column", "remove_column"]}
+REQUIRED_SEEN = {"entry_point": ["parse_scenario", "parse_feature"], "row_value_class": ["all_cells_dashes"], "first_access_to_the_expansion": ["attribute", "iteration"], "background_steps_shape": ["mixed", "all_with_placeholder", "none_with_placeholder", "placeholder_step_with_doc_string"], "outline_place": ["in_rule", "in_feature"], "examples_shape": ["section_without_table_before_rows"], "tag_placeholder_column": ["name_with_punctuation"], "schema": 9, "schema_given_by": ["configuration_parameter", "outline_attribute"], "modification": ["add_row", "add_row_object", "add_column", "remove_column"]}
 NSHARDS = {"quick": 16, "thorough": 16}
 
 
@@ -86,6 +86,7 @@ def gen_outline(rng):
                                 # plain tags are taken over as written, whatever characters they are made of
                                 "bug#42", "c#", "50%", "it's", "a/b", "q?", "x+y"]))
     examples = []
+    dash_row = [False]
     for ei in range(rng.randint(0, 3)):
         order = cols[:]
         rng.shuffle(order)
@@ -97,6 +98,10 @@ def gen_outline(rng):
                 # outline tags use) hold tag-safe values
                 row.append(rng.choice(TAGVALS) if (c == tagcol or c in ("row.id", "examples.index")) else rng.choice(VALUES + cols))
             rows.append(row)
+        if rows and rng.random() < 0.15:
+            # a "not applicable" row: every cell a dash or a run of dashes (looks like a Markdown ruler; in Gherkin a row like any other)
+            rows[rng.randrange(len(rows))] = [rng.choice(["-", "--", "---", ":-:", "--:"]) for _ in order]
+            dash_row[0] = True
         if len(order) >= 2 and rng.random() < 0.12:
             # a column heading that occurs twice (legal; the cell of the FIRST column with that heading fills the placeholder)
             j = rng.randrange(1, len(order))
@@ -111,7 +116,7 @@ def gen_outline(rng):
                                              # a section title is everything behind "Examples:" -- colons included
                                              "Weekdays 08:00 - 18:30", "Ratio 1:2: weekend %d" % ei, "Trailing colon:"]),
                          "header": order, "rows": rows})
-    outline = {"kind": "outline", "tags": tags, "name": "O " + text(2), "desc": ["%% description <%s>" % cols[0]] if rng.random() < 0.3 else [],
+    outline = {"kind": "outline", "dash_row": dash_row[0], "tags": tags, "name": "O " + text(2), "desc": ["%% description <%s>" % cols[0]] if rng.random() < 0.3 else [],
                "steps": steps, "examples": examples}
     before = [{"kind": "scenario", "tags": [], "name": "before", "desc": [], "steps": [{"kw": "Given", "text": "a step"}]}] if rng.random() < 0.5 else []
     background = None
@@ -282,14 +287,21 @@ def one_case(mon, rng, sample=False):
         pass
     if any(("<%s>" % c) in t for t in outline_abs["tags"] for c in ("customer-id", "e-mail", "price/unit", "n°", "q?", "a+b")):
         mon.seen("tag_placeholder_column", "name_with_punctuation")
+    if outline_abs.get("dash_row"):
+        mon.seen("row_value_class", "all_cells_dashes")
     nph = sum(1 for st in outline_abs["steps"] if "<" in st["text"]) + sum(1 for t in outline_abs["tags"] if "<" in t)
     case = {"text": text, "schema": schema}
     mon.case((text, schema), nrows >= 2 and nph >= 2)
     mon.seen("schema", str(schema))
     W = lambda **kw: dict(case=case, **kw)
     before = snapshot_template(o)
+    # the expansion is reached through the attribute or -- an outline is iterable, "for scenario in outline" -- by iteration;
+    # whichever comes FIRST builds it
+    first_access = rng.choice(["attribute", "attribute", "iteration"])
+    mon.seen("first_access_to_the_expansion", first_access)
+    case["first_access"] = first_access
     try:
-        scen = o.scenarios
+        scen = o.scenarios if first_access == "attribute" else list(iter(o))
     except Exception as ex:
         mon.check("expand.count_and_order", False, lambda: W(error=repr(ex)))
         return
@@ -412,7 +424,7 @@ def one_case(mon, rng, sample=False):
         if mods:
             mon.case((text, schema, schema2, tuple(mods)), True)
             try:
-                scen2 = o.scenarios
+                scen2 = o.scenarios if first_access == "attribute" else list(iter(o))
                 got2 = observed_rows(scen2)
                 lines2 = {}
                 for ei, e in enumerate(o.examples):
@@ -447,7 +459,7 @@ def replay(case, mon):
         if hasattr(it, "examples"):
             if case.get("schema"):
                 it.annotation_schema = case["schema"]
-            for s in it.scenarios:
+            for s in (list(iter(it)) if case.get("first_access") == "iteration" else it.scenarios):
                 print(repr(s.name), [str(t) for t in s.tags], [(x.keyword, x.name) for x in s.steps], s.line)
 
 
